@@ -269,3 +269,126 @@ Proof.
 Qed.
 
 End Sem.
+
+(* ---- C14: provenance of characters copied from outside all matches ---- *)
+Open Scope nat_scope.
+
+(* matches are in order, do not overlap and lie inside the string *)
+Fixpoint ms_ok (s : str) (ms : list mtch) (pos : nat) : Prop :=
+  match ms with
+  | [] => pos <= length s
+  | m :: ms' => pos <= m_start m /\ m_start m <= m_end m /\ m_end m <= length s /\ ms_ok s ms' (m_end m)
+  end.
+
+(* the length change a match reports is exactly matched width - replacement length *)
+Definition delta_ok (s : str) (m : mtch) (tr un : list seg) : Prop :=
+  forall shift p, process_match s m shift tr un = Some p ->
+    p_delta p = (Z.of_nat (m_end m) - Z.of_nat (m_start m) - Z.of_nat (length (p_sub p)))%Z.
+
+(* (output position, original position) of every character copied from a gap *)
+Fixpoint gap_pairs (s : str) (ms : list mtch) (segs : list seg) (pos outpos : nat) : list (nat * nat) :=
+  match ms with
+  | [] => map (fun k => (outpos + k, pos + k)) (seq 0 (length s - pos))
+  | m :: ms' =>
+      map (fun k => (outpos + k, pos + k)) (seq 0 (m_start m - pos)) ++
+      gap_pairs s ms' segs (m_end m) (outpos + (m_start m - pos) + length (expand s m segs))
+  end.
+
+Lemma substr_length s a b : a <= b -> b <= length s -> length (substr s a b) = b - a.
+Proof. intros H1 H2. unfold substr. rewrite firstn_length, skipn_length. lia. Qed.
+
+Lemma rule_loop_prefix s tr un : forall ms pos shift acc r,
+  rule_loop s ms tr un pos shift acc = Some r ->
+  exists x y, r_smap r = r_smap acc ++ x /\ r_emap r = r_emap acc ++ y.
+Proof.
+  induction ms as [|m ms IH]; intros pos shift acc r H; simpl in H.
+  - inversion H; subst; simpl. eexists; eexists; split; reflexivity.
+  - destruct (process_match s m shift tr un) as [p|]; [|discriminate].
+    apply IH in H. destruct H as (x & y & Hx & Hy). simpl in Hx, Hy.
+    rewrite <- app_assoc in Hx, Hy. eexists; eexists; split; eassumption.
+Qed.
+
+Lemma nth_error_repeat_in {A} (x : A) n k : k < n -> nth_error (repeat x n) k = Some x.
+Proof. revert k. induction n as [|n IH]; intros k H; [lia|]. destruct k; simpl; [reflexivity|]. apply IH. lia. Qed.
+
+Theorem gap_provenance s tr un : forall ms pos shift acc r,
+  rule_loop s ms tr un pos shift acc = Some r ->
+  ms_ok s ms pos -> (forall m, In m ms -> delta_ok s m tr un) ->
+  length (r_smap acc) = S (length (r_out acc)) -> length (r_emap acc) = S (length (r_out acc)) ->
+  shift = (Z.of_nat pos - Z.of_nat (length (r_out acc)))%Z ->
+  forall j o, In (j, o) (gap_pairs s ms (tr ++ un) pos (length (r_out acc))) ->
+    nth_error (r_smap r) (S j) = Some (Z.of_nat o - Z.of_nat j)%Z /\
+    nth_error (r_emap r) (S j) = Some (Z.of_nat o - Z.of_nat j)%Z.
+Proof.
+  induction ms as [|m ms IH]; intros pos shift acc r H Hok Hd Hs He Hsh j o Hin; simpl in H, Hin.
+  - inversion H; subst r; clear H. cbn [r_smap r_emap]. apply in_map_iff in Hin. destruct Hin as (k & E & Hk).
+    inversion E; subst j o. apply in_seq in Hk. simpl in Hok.
+    assert (Hl : length (skipn pos s) = length s - pos) by apply skipn_length.
+    split; (rewrite nth_error_app2 by lia); rewrite ?Hs, ?He;
+      replace (S (length (r_out acc) + k) - S (length (r_out acc))) with k by lia;
+      unfold copy_map; (rewrite nth_error_app1 by (rewrite repeat_length; lia));
+      (rewrite nth_error_repeat_in by lia); f_equal; lia.
+  - destruct Hok as (H1 & H2 & H3 & Hok').
+    destruct (process_match s m shift tr un) as [p|] eqn:Hp; [|discriminate].
+    assert (Hdm : delta_ok s m tr un) by (apply Hd; left; reflexivity).
+    pose proof (Hdm shift p Hp) as Hdelta.
+    destruct (process_match_spec s m shift tr un) as (p' & Hp' & Hsub & Hps & Hpe).
+    rewrite Hp in Hp'. inversion Hp'; subst p'; clear Hp'.
+    assert (Hgl : length (substr s pos (m_start m)) = m_start m - pos) by (apply substr_length; lia).
+    set (acc' := {| r_out := r_out acc ++ substr s pos (m_start m) ++ p_sub p;
+                    r_smap := r_smap acc ++ copy_map (length (substr s pos (m_start m))) shift ++ p_smap p;
+                    r_emap := r_emap acc ++ copy_map (length (substr s pos (m_start m))) shift ++ p_emap p |}) in *.
+    apply in_app_or in Hin. destruct Hin as [Hin|Hin].
+    + apply in_map_iff in Hin. destruct Hin as (k & E & Hk). inversion E; subst j o. apply in_seq in Hk.
+      destruct (rule_loop_prefix _ _ _ _ _ _ _ _ H) as (x & y & Hx & Hy). rewrite Hx, Hy. unfold acc'; cbn [r_smap r_emap].
+      rewrite <- !app_assoc.
+      split; (rewrite nth_error_app2 by lia); rewrite ?Hs, ?He;
+        replace (S (length (r_out acc) + k) - S (length (r_out acc))) with k by lia;
+        unfold copy_map; (rewrite nth_error_app1 by (rewrite repeat_length; lia));
+        (rewrite nth_error_repeat_in by lia); f_equal; lia.
+    + apply (IH (m_end m) (shift + p_delta p)%Z acc' r H Hok'); auto.
+      * intros m' Hm'. apply Hd. right; exact Hm'.
+      * unfold acc'; simpl. rewrite !app_length, Hs, Hps. unfold copy_map. rewrite repeat_length. lia.
+      * unfold acc'; simpl. rewrite !app_length, He, Hpe. unfold copy_map. rewrite repeat_length. lia.
+      * unfold acc'; simpl. rewrite !app_length, Hgl, Hdelta. lia.
+      * unfold acc'; simpl. rewrite !app_length, Hgl, Hsub. rewrite Nat.add_assoc. exact Hin.
+Qed.
+
+(* at the level of one rule application *)
+Theorem rule_gap_provenance s ms tr un st :
+  ms <> [] -> apply_rule s ms tr un = Some st ->
+  ms_ok s ms 0 -> (forall m, In m ms -> delta_ok s m tr un) ->
+  forall j o, In (j, o) (gap_pairs s ms (tr ++ un) 0 0) ->
+    nth_error (st_smap st) (S j) = Some (Z.of_nat o - Z.of_nat j)%Z /\
+    nth_error (st_emap st) (S j) = Some (Z.of_nat o - Z.of_nat j)%Z.
+Proof.
+  intros Hne H Hok Hd j o Hin. unfold apply_rule in H. destruct ms as [|m ms]; [congruence|].
+  destruct (rule_loop s (m :: ms) tr un 0 0 {| r_out := []; r_smap := [0%Z]; r_emap := [0%Z] |}) as [r|] eqn:E;
+    [|discriminate].
+  inversion H; subst st; simpl.
+  apply (gap_provenance s tr un (m :: ms) 0 0%Z _ r E Hok Hd); auto.
+Qed.
+
+(* the accounting hypothesis holds for every template without in-order group
+   references (deletions, literals, out-of-order references) *)
+Theorem delta_ok_untracked s m un : m_start m <= m_end m -> delta_ok s m [] un.
+Proof.
+  intros Hle shift p H. unfold process_match in H. destruct un as [|u un].
+  - inversion H; subst; simpl. lia.
+  - simpl in H. inversion H; subst; simpl. lia.
+Qed.
+
+(* ... and fails for !(a)c -> \1 : the character after the match is attributed
+   one position too early (known finding F9) *)
+Theorem uncovered_refuted :
+  exists s ms tr un st j o,
+    apply_rule s ms tr un = Some st /\ ms_ok s ms 0 /\ In (j, o) (gap_pairs s ms (tr ++ un) 0 0) /\
+    nth_error (st_smap st) (S j) <> Some (Z.of_nat o - Z.of_nat j)%Z.
+Proof.
+  exists [120; 97; 99; 121]%N.
+  exists [{| m_start := 1; m_end := 3; m_groups := [Some (1, 2)]; m_last := Some 1 |}].
+  exists [SGrp 1], [].
+  eexists. exists 2, 3. split; [reflexivity|]. split; [simpl; lia|]. split.
+  - vm_compute. right. left. reflexivity.
+  - vm_compute. discriminate.
+Qed.
